@@ -173,11 +173,15 @@ pub fn ref_lex(text: &str) -> Vec<RefToken> {
                 }
             }
             b'#' => {
+                // a directive word is a directive only when whitespace, the end of the input or a
+                // comment follows (TGLexer::prepIsDirective); otherwise `#` is the paste operator
+                // and the word starts the next token: `a#else2`, `a#define_x`
                 let mut j = i + 1;
                 while j < n && b[j].is_ascii_alphabetic() {
                     j += 1;
                 }
-                match &text[i + 1..j] {
+                let word_ends = j >= n || matches!(b[j], b' ' | b'\t' | b'\n' | b'\r') || (b[j] == b'/' && j + 1 < n && matches!(b[j + 1], b'/' | b'*'));
+                match if word_ends { &text[i + 1..j] } else { "" } {
                     "define" => {
                         i = j;
                         out.push(tok(RefKind::Directive("define"), i));
